@@ -117,12 +117,15 @@ func runC14(job *Job, res *Result) {
 	parMaps := subsetsUpTo2(pnames, vals)
 	tagMaps := parMaps
 	if !thorough {
-		tagMaps = subsetsUpTo2(pnames[:1], vals)
+		// quick tier: fewer tag values, but still maps with two tags (their order must not matter)
+		tagMaps = subsetsUpTo2(pnames, vals[:2])
+		parMaps = subsetsUpTo2(pnames, vals[:2])
 	}
 	res.Scenario = fmt.Sprintf("c14/names=%v/in-maps=%d/param-maps=%d/tag-maps=%d/substreams=%d", names, len(inMaps), len(parMaps), len(tagMaps), len(subs))
 	byDir := map[string][]string{} // TempDir -> canon of the identities (first few)
 	flatOf := map[string]string{}
 	n := 0
+	nmulti := 0
 	var wf *sp.Workflow
 	var holder, joinHolder *sp.Process
 	build := func(id *ident) string {
@@ -186,8 +189,13 @@ func runC14(job *Job, res *Result) {
 							viol("unstable", c+": "+dir, "c14|unstable|"+c)
 							continue
 						}
-						// stability under every other map iteration order (sampled identities: every 7th)
-						if n%7 == 0 {
+						// stability under every other map iteration order: every identity with a map of
+						// >= 2 entries (every 5th of them in the quick tier), every 11th of the others
+						multi := len(id.ins) >= 2 || len(id.params) >= 2 || len(id.tags) >= 2
+						if multi {
+							nmulti++
+						}
+						if (multi && (thorough || nmulti%5 == 0)) || n%11 == 0 {
 							for v := 1; v < 6; v++ {
 								vs.ForceAll = v
 								if d2 := build(id); d2 != dir {
